@@ -428,6 +428,7 @@ func c10indexGuard(c *Ctx, p *pkgT) {
 	pt := ps[2]
 	// minimum literal length over callers
 	minLen := int64(1 << 30)
+	unknownLen := false
 	for _, fn := range c.P.RepoFuncs() {
 		if c.P.DeclPkg(fn) != p {
 			continue
@@ -440,17 +441,45 @@ func c10indexGuard(c *Ctx, p *pkgT) {
 				return true
 			}
 			o := objOf(info, call.Args[2])
-			l := int64(0)
+			l := int64(-1)
 			if o != nil {
 				for _, d := range sc.defs[o] {
-					if lit, ok := unparen(d).(*ast.CompositeLit); ok && d != nil {
-						if l == 0 || int64(len(lit.Elts)) < l {
-							l = int64(len(lit.Elts))
+					if d == nil {
+						continue
+					}
+					n := int64(-1)
+					switch x := unparen(d).(type) {
+					case *ast.CompositeLit:
+						n = int64(len(x.Elts))
+					case *ast.CallExpr:
+						if builtinName(info, x) == "make" && len(x.Args) >= 2 {
+							if k, ok := constInt(info, x.Args[1]); ok {
+								n = k
+							}
+						} else if callee(info, x) == target {
+							continue // the function's own result: same slice
+						}
+					case *ast.SliceExpr:
+						if x.High != nil {
+							if k, ok := constInt(info, x.High); ok {
+								lo := int64(0)
+								if x.Low != nil {
+									lo, _ = constInt(info, x.Low)
+								}
+								n = k - lo
+							}
 						}
 					}
+					if n < 0 {
+						unknownLen = true
+					} else if l < 0 || n < l {
+						l = n
+					}
 				}
+			} else {
+				unknownLen = true
 			}
-			if l < minLen {
+			if l >= 0 && l < minLen {
 				minLen = l
 			}
 			return true
@@ -458,6 +487,10 @@ func c10indexGuard(c *Ctx, p *pkgT) {
 	}
 	if minLen == 1<<30 {
 		minLen = 0
+	}
+	if unknownLen {
+		minLen = 0
+		c.Note("C10.R2: a caller passes a coordinate slice whose length is not a literal, make(…, const) or x[a:b] with constants; every constant index then needs an explicit guard")
 	}
 	type acc struct {
 		ix *ast.IndexExpr
